@@ -263,11 +263,11 @@ func (op _OpcodeType) decodeB(x uint32) (as abi.As, arg *abi.AsArgument, argRaw 
 	rs1 := (x >> 15) & 0b_1_1111
 	rs2 := (x >> 20) & 0b_1_1111
 
-	imm12 := x & (1 << 31)
+	imm12 := (x >> 31) << 12
 	imm5_10 := ((x >> 25) & 0b_11_1111) << 5
 	imm1_4 := ((x >> 8) & 0b_1111) << 1
 	imm11 := ((x >> 7) & 0b_1) << 11
-	imm := int32(imm12 | imm11 | imm5_10 | imm1_4)
+	imm := int32(i64SignExtend(int64(imm12|imm11|imm5_10|imm1_4), 13))
 
 	funct3 := (x >> 12) & 0b_111
 
